@@ -35,6 +35,11 @@ PathTab ==
    pr1  |-> [text |-> "/r1",          segs |-> <<Lit("r1")>>],
    pr2  |-> [text |-> "/r2",          segs |-> <<Lit("r2")>>],
    pcats |-> [text |-> "/cats",       segs |-> <<Lit("cats")>>],
+   pcatsid |-> [text |-> "/cats/{id}", segs |-> <<Lit("cats"), Par("id")>>],
+   pidID |-> [text |-> "/s/{id}/i/{ID}", segs |-> <<Lit("s"), Par("id"), Lit("i"), Par("ID")>>],
+   pkits |-> [text |-> "/kits",       segs |-> <<Lit("kits")>>],
+   pkitsid |-> [text |-> "/kits/{id}", segs |-> <<Lit("kits"), Par("id")>>],
+   pop2  |-> [text |-> "/op2",        segs |-> <<Lit("op2")>>],
    pdogs |-> [text |-> "/dogs",       segs |-> <<Lit("dogs")>>],
    pru   |-> [text |-> "/ru",         segs |-> <<Lit("ru")>>],
    pdm  |-> [text |-> "/dm",          segs |-> <<Lit("dm")>>],
@@ -63,6 +68,11 @@ BodyTab ==
    refu   |-> [text |-> "@nope",                 kind |-> "schema", root |-> "reference", rtype |-> "@nope", uses |-> {"@nope"}, inh |-> {}, enums |-> {}, keys |-> {}, props |-> <<>>],
    hdr    |-> [text |-> "{\"H\": \"v\"}",        kind |-> "schema", root |-> "object", rtype |-> "object",  uses |-> {}, inh |-> {}, enums |-> {}, keys |-> {"H"}, props |-> <<[key |-> "H", tt |-> "string", ty |-> "string"]>>],
    pid    |-> [text |-> "{\"id\": 1}",           kind |-> "schema", root |-> "object", rtype |-> "object",  uses |-> {}, inh |-> {}, enums |-> {}, keys |-> {"id"}, props |-> <<[key |-> "id", tt |-> "number", ty |-> "integer"]>>],
+   ordbad |-> [text |-> "{\n  \"items\": [@item],\n  \"n\": 1 // {min: 5}\n}", kind |-> "schema", root |-> "object", rtype |-> "object", uses |-> {"@item"}, inh |-> {}, enums |-> {}, keys |-> {"items", "n"},
+               props |-> <<[key |-> "items", tt |-> "array", ty |-> "array"], [key |-> "n", tt |-> "number", ty |-> "integer"]>>],
+   itemopt |-> [text |-> "{\"order\": @order}", kind |-> "schema", root |-> "object", rtype |-> "object", uses |-> {"@order"}, inh |-> {}, enums |-> {}, keys |-> {"order"},
+               props |-> <<[key |-> "order", tt |-> "reference", ty |-> "@order"]>>],
+   reftarr |-> [text |-> "@tarr",                 kind |-> "schema", root |-> "reference", rtype |-> "@tarr", uses |-> {"@tarr"}, inh |-> {}, enums |-> {}, keys |-> {}, props |-> <<>>],
    objun  |-> [text |-> "{\"a\": @t1|@t2}",       kind |-> "schema", root |-> "object", rtype |-> "object",  uses |-> {"@t1", "@t2"}, inh |-> {}, enums |-> {}, keys |-> {"a"}, props |-> <<[key |-> "a", tt |-> "reference", ty |-> "mixed"]>>],
    objall |-> [text |-> "{ // {allOf: \"@t5\"}\n  \"z\": 1\n}", kind |-> "schema", root |-> "object", rtype |-> "object", uses |-> {"@t5"}, inh |-> {"@t1", "@t2"}, enums |-> {}, keys |-> {"a", "z"},
                props |-> <<[key |-> "a", tt |-> "reference", ty |-> "mixed"], [key |-> "z", tt |-> "number", ty |-> "integer"]>>],
